@@ -9,7 +9,7 @@ Mutants:
 Each mutant is applied to a scratch copy of /repo under /var/tmp (removed
 afterwards); the check runs with VF_REPO pointing there.
 
-usage: sensitivity.py [--only substr] [--out sensitivity/RESULTS.json]
+usage: sensitivity.py [--only regex] [--out sensitivity/RESULTS.json]
 """
 import argparse
 import glob
@@ -111,7 +111,8 @@ def main():
     a = ap.parse_args()
     ms = mutants()
     if a.only:
-        ms = [m for m in ms if a.only in m['id']]
+        import re
+        ms = [m for m in ms if re.search(a.only, m['id'])]
     results = []
     for i, m in enumerate(ms):
         if not m['checks']:
